@@ -106,6 +106,8 @@ inductive Tree
   | V (a : Nat)                          -- Just((v + a) % 1000)
   | N (id : Nat)                         -- New(effect id): logs, returns (7*id + #events so far) % 1000
   | W (id : Nat)                         -- New(effect id): logs, returns (2*v + id + #events so far) % 1000
+  | H (id : Nat)                         -- New(func(){ return api.Eval() }) around a SimpleAPI GET built at construction; the
+                                         -- stub transport is effect `id` of kind N (network/simpleHTTP.go returns its call as a MonadIO)
   | FR (t : Tree)                        -- t.FlatMap(Just)
   | FL (c : Nat) (t b : Tree)            -- t.FlatMap(func(x){ log call c x; return b[x] })
   | FC (c : Nat) (t b1 b2 : Tree)        -- t.FlatMap(func(x){ log call c x; if x even return b1[x] else b2[x] })
@@ -132,6 +134,7 @@ def den : Tree → Nat → M Nat
   | .V a, v => just (valV v a)
   | .N id, _ => new (userEffect id (valN id))
   | .W id, v => new (userEffect id (valW v id))
+  | .H id, _ => new (userEffect id (valN id))
   | .FR t, v => flatMap (den t v) just
   | .FL c t b, v => flatMap (den t v) (kont c (fun x => den b x))
   | .FC c t b1 b2, v => flatMap (den t v) (kont c (fun x => if x % 2 = 0 then den b1 x else den b2 x))
@@ -148,6 +151,7 @@ def run : Tree → (v n : Nat) → Nat × List Kind
   | .V a, v, _ => (valV v a, [])
   | .N id, _, n => (valN id n, [.eff id])
   | .W id, v, n => (valW v id n, [.eff id])
+  | .H id, _, n => (valN id n, [.eff id])
   | .FR t, v, n => run t v n
   | .FL c t b, v, n =>
     let r1 := run t v n
@@ -186,6 +190,7 @@ def Kind.label : Kind → Label
 def labels : Tree → List Label
   | .N id => [.eff id]
   | .W id => [.eff id]
+  | .H id => [.eff id]
   | .FR t => labels t
   | .FL c t b => labels t ++ .call c :: labels b
   | .FC c t b1 _ => labels t ++ .call c :: labels b1
@@ -233,6 +238,7 @@ def parseTree : Nat → List String → Option (Tree × List String)
     | "V", a :: rest => a.toNat?.map (fun a => (.V a, rest))
     | "N", i :: rest => i.toNat?.map (fun i => (.N i, rest))
     | "W", i :: rest => i.toNat?.map (fun i => (.W i, rest))
+    | "H", i :: rest => i.toNat?.map (fun i => (.H i, rest))
     | "FR", rest => (parseTree fuel rest).map (fun (t, rest) => (.FR t, rest))
     | "FL", c :: rest =>
       match c.toNat?, parseTree fuel rest with
